@@ -307,6 +307,16 @@ func classifyIndex(w *World, fn *ssa.Function, in ssa.Instruction, coll, idx ssa
 			return kind, "G0", "constant index into a fixed-size array"
 		}
 	}
+	// G0 (literal): a slice literal []T{…} with N elements indexed by a constant below N
+	if sl, ok := coll.(*ssa.Slice); ok && sl.Low == nil && sl.High == nil {
+		if n, ok := arrayLenOfPtr(sl.X.Type()); ok {
+			if _, isAlloc := sl.X.(*ssa.Alloc); isAlloc {
+				if k, ok := constInt(idx); ok && k >= 0 && k < n {
+					return kind, "G0", "constant index into a slice literal of known length"
+				}
+			}
+		}
+	}
 	b := in.Block()
 	// G1: idx < len(coll) established (range loops and explicit guards), idx >= 0 because it is a range counter or len-derived
 	for _, f := range factsAt(b) {
